@@ -34,4 +34,20 @@ theorem normalize_total {f : Rat} (hf : 0 < f) (T0 : Int → Rat) (ic : Bool)
   obtain ⟨K, _, h⟩ := C05.wrap_consistent hf T0 ic items hv hkeep hexec
   exact ⟨_, h⟩
 
+/-- **Time conversion** (`cycle_count_to_wallclock → tighten_hts_by_instr_type`): for a device
+slice with non-decreasing counters whose counter span fits in front of its host end (in
+particular `0 ≤ ts` after conversion), neither stage's assertions fire. -/
+theorem timesync_total {f : Rat} {e : TimeSync.Ev} {c1 c2 c3 c4 c5 : Int} (hf : 0 < f)
+    (hph : e.ph = "X") (htsx : e.tsx = some [c1, c2, c3, c4, c5])
+    (h12 : c1 ≤ c2) (h23 : c2 ≤ c3) (h34 : c3 ≤ c4) (h45 : c4 ≤ c5)
+    (hroom : ((c5 - c1 : Int) : Rat) / f ≤ e.ts + e.dur) :
+    ∃ o, TimeSync.both f e = .ok o :=
+  C06.asserts_hold hf hph htsx h12 h23 h34 h45 hroom
+
+/-- **Power counter** (`compute_power`): time-sorted 32-bit charge readings never raise the
+negative-power `OverflowError`, with or without `--skip_events`. -/
+theorem power_total (skip : Bool) (l : List Power.Ctr) (hr : ∀ c ∈ l, Power.InRange c)
+    (hs : Power.TimeSorted l) : ∃ outs, Power.computeRank skip l = .ok outs :=
+  C10.never_raises skip l hr hs
+
 end AiuVerif.C02
